@@ -389,9 +389,10 @@ def _define_raw_metadata(global_meta, composite_meta, include_meta,
     metadata = {}
     for key, value in all_meta.items():
         try:
-            value = float(value)
-            if value.is_integer():
-                value = int(value)
+            if key != 'text':  # text is kept verbatim (e.g., '007')
+                value = float(value)
+                if value.is_integer():
+                    value = int(value)
         except (ValueError, TypeError):
             pass
 
